@@ -5,7 +5,13 @@
     pod recreated as pending, pipelined pod stays pending).
 
     [monitor_ok]  - the property on the observed states: no lasso (a state seen before with
-                    an eviction in between) and not more evicting cycles than [k_bound].
+                    an eviction in between) and not more evicting cycles than [k_bound]; and SIZE
+                    CONSISTENCY on every job the real actions placed (every stream): the size the scheduler
+                    counted the pending job by (the real podgroup_info.GetTasksToAllocateInitResource, called by
+                    the harness on the real job right before the action) is not smaller than what its pods were
+                    charged when placed (AcceptedResource), and equal to it when the pods sit on devices of the
+                    memory the session divides by ([size_ok]; Model/ClosedSystem.v never_undercounted /
+                    size_consistent, theorems C15_sized_no_lasso / C15_undercounted_gate_refuted).
     [model_agrees] - class stream only: every real cycle is a cycle of Model/ClosedSystem.v
                     (refinement): the parameters meet the hypotheses of the class, a pod
                     every real bind / reclaim / preempt is admissible in the abstract decision relation
@@ -21,15 +27,27 @@ Open Scope Z_scope.
 (** pod id -> (location: 0 = pending, k = k-th node; canonical GPU-group codes) *)
 Definition wstate := list (positive * (N * list N)).
 
+(** one size observation (harness/internal/c15/world.go SizeObs), in millionths of a GPU *)
+Record sizeobs := mkSz {
+  sz_action : nat;      (* 0 allocate, 1 reclaim, 2 preempt, 3 consolidation, 4 other *)
+  sz_job : positive;    (* first pod of the job *)
+  sz_gate : Z;          (* GetTasksToAllocateInitResource(job).GPUs, asked right before the action *)
+  sz_charged : Z;       (* sum over the placed pods of QuantifyResourceRequirements(AcceptedResource).GPU *)
+  sz_devices : Z;       (* shared devices of the placed pods: each charged portion is rounded UP to 1/100 GPU *)
+  sz_homog : bool;      (* every pod was placed on a device of the memory the gate divides by (MinNodeGPUMemory) *)
+  sz_evicting : bool;   (* the action committed an eviction for this job *)
+}.
+
 Record ccycle := mkCy {
   cy_binds : list positive;                  (* pods bound, in order *)
   cy_evs : list (nat * positive * positive); (* (action: 1 reclaim, 2 preempt, 3 consolidation, 0 other; preemptor; victim pod) *)
   cy_pipes : list positive;                  (* pods pipelined *)
   cy_state : wstate;                         (* world state after the cycle *)
+  cy_sizes : list sizeobs;                   (* gate size vs charged size of every job placed in the cycle *)
 }.
 
 Record case := mkCase {
-  k_stream : nat;            (* 0 = class of theorem C15_rank_decreases, 1 = general, 2 = hierarchical (monitor only) *)
+  k_stream : nat;            (* 0 = class of theorem C15_rank_decreases, 1 = general, 2 = hierarchical, 3 = sized (monitor only) *)
   k_params : params;         (* class: shares scaled to integers; jobs = pods *)
   k_mult : Z * Z;            (* configured saturation multiplier (before the plugin's clamp) *)
   k_exact : bool;            (* all shares were exactly representable and consistent with the session's getters *)
@@ -66,9 +84,20 @@ Fixpoint has_lasso (s0 : wstate) (cs : list ccycle) : bool :=
   | c :: r => returns_after_eviction s0 false cs || has_lasso (cy_state c) r
   end.
 
+(** size consistency on one observation.  Never under-counted: charged <= gate, up to the rounding of the charged
+    portions (node_info.getGpuMemoryFractionalOnNode rounds each device's portion UP to 1/100 GPU = 10000 millionths;
+    10 millionths for float64 noise).  Consistent: gate <= charged as well when the devices have the memory the gate
+    divides by.  On devices of another memory the gate (memory / smallest device memory) may count more: that is the
+    harmless direction (theorem C15_never_undercounting_gate_only_refuses_more). *)
+Definition size_ok (o : sizeobs) : bool :=
+  (sz_charged o <=? sz_gate o + 10000 * sz_devices o + 10)
+  && (if sz_homog o then sz_gate o <=? sz_charged o + 10 else true).
+Definition sizes_ok (cs : list ccycle) : bool := forallb (fun c => forallb size_ok (cy_sizes c)) cs.
+
 Definition monitor_ok (k : case) : bool :=
   negb (has_lasso (k_state0 k) (k_cycles k))
-  && Nat.leb (List.length (filter cy_evicts (k_cycles k))) (k_bound k).
+  && Nat.leb (List.length (filter cy_evicts (k_cycles k))) (k_bound k)
+  && sizes_ok (k_cycles k).
 
 (** * refinement (class stream) *)
 Definition running_of (w : wstate) : list positive :=
